@@ -4,6 +4,9 @@ import ast
 from ..model import AnalysisError
 from ..lib import (FV, decode_new, decode_call, phi_members, is_sym, is_const, is_str, strip_stores, stores_of, cond_equiv,
                    path_term)
+from ..lib import full_term  # noqa: F401
+from ..lib import (reached_iff, reached_implies, implies_reached, reached_iff_any, path_term, cond_equiv, cond_implies,  # noqa: F401
+                   else_stmts, branch_stmts, context_literals)
 from ..cfg import always_raises, walk_stmts
 from . import common as cm
 from . import geom
@@ -360,21 +363,22 @@ def d5_legacy(chk, repo):
                        "binds every keyword to a parameter and supplies nvdim")
     f = FV(repo, H5 + "_FieldIO_HDF5._from_hdf5", self_type=FIELD)
     ok = False
-    for st in f.stmts():
-        if isinstance(st, ast.If):
-            ct = f.ev.term(st.test, at=st)
-            hd = f.ctx.head_of(ct)
-            is_test = False
-            if hd == ("cmp", "notin"):
+    # the legacy reader is returned exactly when the version attribute is missing (any nesting / orientation)
+    for r_ in f.returns():
+        if r_.value is None:
+            continue
+        c = decode_call(f.ctx, f.ev.term(r_.value, at=r_))
+        if not (c and c[0].endswith("._h5_legacy_load_field")):
+            continue
+        full = full_term(f, r_)
+        tests = [t_ for t_ in ([full] if f.ctx.head_of(full) != ("and",) else list(f.ctx.args_of(full)))]
+        for ct in tests:
+            if f.ctx.head_of(ct) == ("cmp", "notin"):
                 k_, obj = f.ctx.args_of(ct)
                 ho = f.ctx.head_of(obj)
-                is_test = is_str(f.ctx, k_, "ubermag-hdf5-file-version") and bool(ho) and ho[0] == "attr" and ho[1] == "attrs" \
-                    and _is_h5(f, f.ctx.args_of(obj)[0])
-            if is_test:
-                rets = [s for s in st.body if isinstance(s, ast.Return)]
-                if rets:
-                    c = decode_call(f.ctx, f.ev.term(rets[0].value, at=rets[0]))
-                    ok = bool(c and c[0].endswith("._h5_legacy_load_field"))
+                if is_str(f.ctx, k_, "ubermag-hdf5-file-version") and bool(ho) and ho[0] == "attr" and ho[1] == "attrs" \
+                        and _is_h5(f, f.ctx.args_of(obj)[0]):
+                    ok = reached_iff(f, r_, ct)
     chk.ob("io.hdf5._FieldIO_HDF5._from_hdf5::legacy-dispatch", ok, "C10.D5",
            "files without 'ubermag-hdf5-file-version' must be handed to _h5_legacy_load_field", f.f)
     v = FV(repo, H5 + "_FieldIO_HDF5._h5_legacy_load_field", self_type=FIELD)
